@@ -67,14 +67,15 @@ def run_(tier):
     for hcase in hs:
         steps = hcase["steps"]
         cases.append({"profile": profs[hcase["prof"]], "pkey": hcase["prof"], "docs": DOCS, "dclasses": DCLASS,
-                      "fresh": sorted(set(steps)), "steps": steps, "handles": [0] * len(steps)})
+                      "fresh": sorted(set(steps)), "steps": steps, "handles": [0] * len(steps),
+                      "varyCfg": len(cases) % 4 == 0})
     # (B) long random histories, two handles interleaved, fixture profiles with their own data
     nlong = 6 if tier == "quick" else 60
     for i in range(nlong):
         pk = rnd.choice(sorted(profs))
         steps = [rnd.choice(sorted(DOCS)) for _ in range(60 if tier == "quick" else 200)]
         cases.append({"profile": profs[pk], "pkey": pk, "docs": DOCS, "dclasses": DCLASS, "fresh": sorted(set(steps)),
-                      "steps": steps, "handles": [rnd.randrange(2) for _ in steps]})
+                      "steps": steps, "handles": [rnd.randrange(2) for _ in steps], "varyCfg": True})
     for p, d, name in fx[: (2 if tier == "quick" else 10)]:
         docs = dict(DOCS)
         docs["own"] = d
